@@ -3,9 +3,9 @@ from . import querycheck
 
 
 def run(r):
-    querycheck.run(r, "order+limit", "BW.Props.C12",
+    querycheck.run(r, "order+limit+group", "BW.Props.C12",
                    "proof: stage-level theorems on the model of the stages after the graph pattern (Props/C12.lean); tie: the "
-                   "`query` correspondence in modes 'order' and 'limit' (LIMIT without ORDER BY, lone clauses with repeated bindings included) — generated stores with int64/float64/text/bool values, nodes, "
+                   "`query` correspondence in modes 'order', 'limit' and 'group' (ORDER BY over grouped rows; LIMIT without ORDER BY, lone clauses with repeated bindings included) — generated stores with int64/float64/text/bool values, nodes, "
                    "predicates and anchors in several zones; statements with the clause under test combined with every other "
                    "clause (GROUP BY keys and aliases, count/count distinct/sum, ORDER BY key lists with ASC/DESC and repeated "
                    "keys, nested HAVING expressions over every operand kind, LIMIT 0..3, global bounds); implementation vs "
